@@ -234,6 +234,16 @@ def inline_async(prog, fn, depth=1, accept=None):
             blocks.append(nb)
         blocks[bi]["t"] = {"k": "goto", "target": bmap(0), "sp": t.get("sp"), "inlined": body.key}
         inlined.append(body.key)
+        # the spliced poll only ever completes with Ready (the helper's own yields suspend in place): the `Pending` edge of
+        # the await loop that followed the poll is dead -- left in, it would look like a way to run the helper again
+        if target is not None and not blocks[target]["cleanup"]:
+            tb = blocks[target]
+            tt = tb["t"]
+            if tt["k"] == "switch" and tb["st"] and tb["st"][-1]["k"] == "=" and tb["st"][-1]["r"][0] == "discr" and tb["st"][-1]["r"][1] == dest \
+                    and tt["discr"][0] in ("c", "m") and tt["discr"][1] == tb["st"][-1]["p"]:
+                ready = [b_ for v, b_ in tt["targets"] if str(v) == "0"]
+                if ready:
+                    tb["t"] = {"k": "goto", "target": ready[0], "sp": tt.get("sp"), "pruned": "Pending edge of an inlined await"}
     if not inlined:
         return fn
     rec["blocks"] = blocks
